@@ -972,3 +972,28 @@ package openflow13
 //@   ensures err == nil ==> typeis(d.Fields[2].Value, *EthTypeField) && d.Fields[2].Value.(*EthTypeField).EthType == et && d.Fields[3].HasMask && typeis(d.Fields[3].Value, *Ipv4DstField) && typeis(d.Fields[3].Mask, *Ipv4DstField)
 //@   ensures[C03] err == nil ==> len(b1) == 48 && be16(b1, 0) == 1 && be16(b1, 2) == 46 && be32(b1, 4) == 2147483652 && be32(b1, 8) == port && be32(b1, 12) == 2147485452 && bytes_eq(b1, 16, mac, 0, 6) && bytes_eq(b1, 22, mask, 0, 6) && be32(b1, 28) == 2147486210 && be16(b1, 32) == et && be32(b1, 34) == 2147490056 && bytes_eq(b1, 38, ip, 0, 4) && bytes_eq(b1, 42, ipmask, 0, 4) && be16(b1, 46) == 0
 //@   ensures err == nil ==> len(b2) == len(b1) && bytes_eq(b2, 0, b1, 0, len(b1))
+
+// C03: conntrack builder calls (nicira-ext.h nx_action_conntrack: flags bit 0 = commit, bit 1 = force; zone_src 0 with the
+// immediate zone in zone_ofs_nbits / zone_imm; recirc_table) and NXM_NX_REGn matches with a bit range (mask = the range's bits)
+//@ func lemmaCtorConnTrackBuilders(table, zone) (b) [C03]
+//@   inlinecalls
+//@   allowglobals
+//@   ensures[C03] be16(b, 0) == 65535 && be16(b, 2) == 24 && len(b) == 24 && be32(b, 4) == 8992 && be16(b, 8) == 35 && be16(b, 10) == 3 && be32(b, 12) == 0 && be16(b, 16) == zone && u8(b, 18) == table && u8(b, 19) == 0 && be16(b, 20) == 0 && be16(b, 22) == 0
+
+//@ func lemmaCtorConnTrackForceCommit() (b) [C03]
+//@   inlinecalls
+//@   allowglobals
+//@   ensures[C03] be16(b, 8) == 35 && be16(b, 10) == 3 && len(b) == 24
+
+//@ func lemmaCtorNewRegMatchField(idx, data, first, last) (b) [C03]
+//@   inlinecalls
+//@   allowglobals
+//@   requires 0 <= idx && idx <= 15 && 0 <= first && first <= last && last <= 31
+//@   ensures[C03] be16(b, 0) == 1 && u8(b, 2) == uint8(idx) * 2 + 1 && u8(b, 3) == 8 && len(b) == 12 && be32(b, 4) == data
+//@   ensures[C03] be32(b, 8) == ((uint32(4294967295) >> uint32(31 - last + first)) << uint32(first))
+
+//@ func lemmaCtorNewRegMatchFieldNoRange(idx, data) (b) [C03]
+//@   inlinecalls
+//@   allowglobals
+//@   requires 0 <= idx && idx <= 15
+//@   ensures[C03] be16(b, 0) == 1 && u8(b, 2) == uint8(idx) * 2 && u8(b, 3) == 4 && len(b) == 8 && be32(b, 4) == data
